@@ -251,6 +251,10 @@ def observe(ctx, traces, props, module='TraceObs'):
                 v.append(('L2', sid) if m.group(1) == 'L2' else (m.group(2), sid))
             elif p.startswith('<<"L1"') or p.startswith('<<"L2"'):
                 raise Infra('unparseable observer line: ' + p[:200])
+        # safety net: every report the observer printed must have been parsed (TLC pretty-prints long tuples over several lines)
+        raw = len(re.findall(r'<<\s*"L[12]",', r.out))
+        if raw != len(v):
+            raise Infra('observer printed %d report(s) but %d were parsed (%s)' % (raw, len(v), tp))
         return v, r.distinct
     out = []
     with ThreadPoolExecutor(max_workers=min(len(traces), NCPU)) as ex:
